@@ -10,8 +10,9 @@ the watched directories fails with OSError *before* it does anything.
 Intercepted: builtins.open, os.rename/replace/remove/unlink/mkdir/makedirs/
 rmdir, shutil.copy/copy2/copyfile/move/rmtree.  Deterministic: the count only
 depends on the calls the operation makes.  Nothing here draws random numbers.
-(The fault is "the call fails", not "the call half-happens": torn writes are a
-separate seam in the property modules.)"""
+(The fault is "the call fails", not "the call half-happens" - torn writes are a
+separate seam in the property modules - with one exception: a failing
+shutil.rmtree has already deleted one file of the tree.)"""
 import builtins
 import errno
 import os
@@ -52,6 +53,12 @@ class IOFault:
         if st["calls"] == self.at:
             st["fired"] = 1
             st["what"] = f"{name} {os.path.relpath(a)}"
+            if name == "shutil.rmtree" and os.path.isdir(a):
+                # a tree delete that dies part-way: one file (the first in sorted walk order) is already gone
+                for r, ds, fs in sorted(os.walk(a)):
+                    if fs:
+                        self.saved["os.remove"](os.path.join(r, sorted(fs)[0]))
+                        break
             raise OSError(self.err, f"simulated I/O error at call {self.at}: {name}", a)
 
     def __enter__(self):
